@@ -156,8 +156,12 @@ impl Balance {
         //
         // Input size: is "big",    ~ all transactions
         // Output size: is "small", ~ size of CoA
-        let account_sums: Vec<(TxnAccount, Decimal)> = txns
+        let converted_postings = txns
             .flat_map(|txn| price_lookup_ctx.convert_prices(txn))
+            .collect::<Result<Vec<_>, tackler::Error>>()?;
+
+        let account_sums: Vec<(TxnAccount, Decimal)> = converted_postings
+            .into_iter()
             .sorted_by_key(|(acctn, _, _)| acctn.clone())
             .chunk_by(|(acctn, _, _)| acctn.clone())
             .into_iter()
